@@ -9,7 +9,6 @@ import (
 	"fmt"
 	"io"
 	"log"
-	gonet "net"
 	"testing"
 	"time"
 
@@ -50,6 +49,8 @@ type Op struct {
 
 type Case struct {
 	Ops []Op `json:"ops"`
+	// Transport the server listens on: unix (default) | tcp | tcps
+	Transport string `json:"transport,omitempty"`
 }
 
 const serviceInfoSig = "(sIsI[s]ss)<ServiceInfo,name,serviceId,machineId,processId,endpoints,sessionId,objectUid>"
@@ -93,7 +94,8 @@ var dirActions = []uint32{100, 101, 102, 104, 105, 108, 0, 1, 2, 5, 6}
 func genCase(t *rapid.T) Case {
 	var c Case
 	n := rapid.IntRange(2, 25).Draw(t, "n")
-	kinds := []string{"frame", "frame", "frame", "frame", "reg", "reg", "reg", "dirinfo", "flood", "halfframe", "terminate", "unregister", "regburst", "multiflood", "postflood"}
+	c.Transport = rapid.SampledFrom([]string{"unix", "unix", "unix", "tcp", "tcps", "tcps"}).Draw(t, "transport")
+	kinds := []string{"frame", "frame", "frame", "frame", "reg", "reg", "reg", "dirinfo", "flood", "halfframe", "terminate", "unregister", "regburst", "multiflood", "postflood", "strangeconn"}
 	if vt.Thorough() {
 		kinds = append(kinds, "floodnoread")
 	}
@@ -145,6 +147,8 @@ func genCase(t *rapid.T) Case {
 			op.N = rapid.SampledFrom([]int{15, 40, 120}).Draw(t, "posts")
 			op.Action = rapid.SampledFrom([]uint32{0, 0, 1, 101, 2}).Draw(t, "paction")
 			op.Stall = rapid.SampledFrom([]int{0, 5000, 30000}).Draw(t, "pstall")
+		case "strangeconn":
+			op.N = rapid.IntRange(0, 11).Draw(t, "strange")
 		case "regburst":
 			// connections which subscribe a few times, send all their
 			// unregisterEvent calls in one write and vanish without reading
@@ -291,11 +295,22 @@ func authFrame() []byte {
 func checkCase(c Case) error {
 	vt.Journal(prop, "TestHostile", "C12:process-died", c)
 	defer vt.JournalDone(prop, "TestHostile")
-	env, err := netkit.StartServer(bus.Yes{})
+	transport := c.Transport
+	if transport == "" {
+		transport = "unix"
+	}
+	env, err := netkit.StartServerOn(transport, bus.Yes{})
 	if err != nil {
+		if transport != "unix" {
+			// the port picked for the server was taken meanwhile
+			vt.Note("server on %s: %v", transport, err)
+			vt.Case(false, "unavailable", "transport-unavailable="+transport)
+			return nil
+		}
 		return vt.Violationf("C12:setup", "server: %v", err)
 	}
 	defer env.Close()
+	vt.Label("server-transport=" + transport)
 	w := &world{env: env, terminated: map[uint32]string{}, listed: map[uint32]bool{1: true}}
 	psvc, _, err := env.AddPong("P")
 	if err != nil {
@@ -370,7 +385,7 @@ func checkCase(c Case) error {
 		case "floodnoread":
 			floods++
 			// a second hostile connection that never reads its replies, then vanishes
-			if conn, err := gonet.Dial("unix", env.Addr[7:]); err == nil {
+			if conn, err := netkit.DialConn(env.Addr); err == nil {
 				conn.Write(authFrame())
 				time.Sleep(2 * time.Millisecond)
 				conn.SetWriteDeadline(time.Now().Add(3 * time.Second))
@@ -381,8 +396,23 @@ func checkCase(c Case) error {
 				}
 				conn.Close()
 			}
+		case "strangeconn":
+			// a connection underneath the transport (for tcps: no TLS handshake)
+			// which says something else than the protocol, or nothing, and goes
+			if conn, err := netkit.DialBare(env.Addr); err == nil {
+				switch op.N % 4 {
+				case 0: // a well-formed cleartext frame
+					conn.Write(authFrame())
+				case 1: // bytes of no protocol
+					conn.Write([]byte("GET / HTTP/1.0\r\n\r\n"))
+				case 2: // the beginning of a TLS handshake, then silence
+					conn.Write([]byte{0x16, 0x03, 0x01, 0x00, 0xa5, 0x01, 0x00, 0x00})
+				}
+				time.Sleep(time.Duration(op.N%3) * time.Millisecond)
+				conn.Close()
+			}
 		case "halfframe":
-			if conn, err := gonet.Dial("unix", env.Addr[7:]); err == nil {
+			if conn, err := netkit.DialConn(env.Addr); err == nil {
 				conn.Write(authFrame())
 				time.Sleep(time.Millisecond)
 				full := netkit.Frame{Type: netkit.Call, ID: 9, Service: sid, Object: 1, Action: 100, Payload: make([]byte, 100)}.Encode()
